@@ -1,6 +1,8 @@
 package experiment
 
 import (
+	"sort"
+
 	"gonum.org/v1/gonum/floats"
 	"gonum.org/v1/gonum/stat"
 	"math"
@@ -52,7 +54,7 @@ func (x Floats) Median() float64 {
 	if len(x) == 0 {
 		return math.NaN()
 	}
-	return stat.Quantile(0.5, stat.Empirical, x, nil)
+	return stat.Quantile(0.5, stat.Empirical, x.sorted(), nil)
 }
 
 // Q25 is the 25% quantile
@@ -60,7 +62,7 @@ func (x Floats) Q25() float64 {
 	if len(x) == 0 {
 		return math.NaN()
 	}
-	return stat.Quantile(0.25, stat.Empirical, x, nil)
+	return stat.Quantile(0.25, stat.Empirical, x.sorted(), nil)
 }
 
 // Q75 is the 75% quantile
@@ -68,7 +70,7 @@ func (x Floats) Q75() float64 {
 	if len(x) == 0 {
 		return math.NaN()
 	}
-	return stat.Quantile(0.75, stat.Empirical, x, nil)
+	return stat.Quantile(0.75, stat.Empirical, x.sorted(), nil)
 }
 
 // Variance returns the variance of the values in the slice
@@ -85,4 +87,12 @@ func (x Floats) StdDev() float64 {
 		return math.NaN()
 	}
 	return stat.StdDev(x, nil)
+}
+
+// sorted returns the sorted copy of the values in the slice
+func (x Floats) sorted() []float64 {
+	s := make([]float64, len(x))
+	copy(s, x)
+	sort.Float64s(s)
+	return s
 }
